@@ -165,7 +165,16 @@ type caseSpec struct {
 	FU *fuRecipe `json:"hostile_fragmentation_unit,omitempty"`
 	// BoundScale multiplies the wait bound (cases that push tens of megabytes through the converters).
 	BoundScale int `json:"bound_scale,omitempty"`
-	HLSWaitMs  int `json:"hls_wait_ms,omitempty"` // 0 = the default bound
+	// LegitPS: parameter-set NAL units (hex) the stream legitimately carries besides
+	// the repository's real ones (SDP / probe): whole, well-formed units of valid
+	// packets of the generated prefix. Never a unit of a hostile packet.
+	LegitPS []string `json:"legitimate_parameter_sets,omitempty"`
+	// PSNotJudged (a reason) switches the parameter-set identity check off: a
+	// stream without sprop sets whose hostile packets arrive before its first
+	// good in-band sets — ipchub documents that the first sets that make the
+	// metadata ready are kept.
+	PSNotJudged string `json:"parameter_set_identity_not_judged,omitempty"`
+	HLSWaitMs   int    `json:"hls_wait_ms,omitempty"` // 0 = the default bound
 	// SettleMs lets the converter goroutines work off the hostile packets before
 	// the next packet is published (at most this long; ends early once a converter
 	// has logged a recovered panic). It only varies the schedule, it is no oracle.
@@ -530,6 +539,7 @@ type result struct {
 	RTPMiss    string   `json:"rtp_continuation,omitempty"`
 	FLVMiss    string   `json:"flv_continuation,omitempty"`
 	HLSMiss    string   `json:"hls_continuation,omitempty"`
+	PSWrong    string   `json:"parameter_sets_in_output,omitempty"`
 	HasFLV     bool     `json:"-"`
 	HasHLS     bool     `json:"-"`
 	HLSSkipped bool     `json:"hls_subcheck_skipped_listed_finding,omitempty"`
@@ -551,6 +561,8 @@ func (res *result) failure() string {
 		return "flv-conversion-stopped"
 	case res.HLSMiss != "":
 		return "hls-conversion-stopped"
+	case res.PSWrong != "":
+		return "hostile-parameter-set-in-output"
 	case res.TwinMiss != "":
 		return "twin-stream-disturbed"
 	}
@@ -667,6 +679,9 @@ func runCase(c *caseSpec, inject bool) *result {
 		hb = time.Duration(c.HLSWaitMs) * time.Millisecond
 	}
 	res.RTPMiss, res.FLVMiss, res.HLSMiss = continuation(a, pa, res.HasFLV, res.HasHLS, wb, hb)
+	if inject && c.PSNotJudged == "" && res.RTPMiss+res.FLVMiss+res.HLSMiss == "" {
+		res.PSWrong = parameterSetIdentity(c, a, pa, res.HasFLV, res.HasHLS, wb)
+	}
 	r2, f2, h2 := continuation(b, pb, res.HasFLV, hlsStream, wb, wb)
 	if r2+f2+h2 != "" {
 		res.TwinMiss = strings.TrimSpace(r2 + " " + f2 + " " + h2)
@@ -793,6 +808,246 @@ func continuation(r *rig, probe []probeAU, hasFLV, hasHLS bool, bound, hlsBound 
 	return
 }
 
+// ---------------------------------------------------------------- which parameter sets the output carries
+
+// legit returns the parameter-set NAL units the stream legitimately carries, by
+// NAL type: the repository's real sets (what the SDP and the probe carry) plus
+// the well-formed in-band units of the generated prefix.
+func legit(c *caseSpec) map[byte][][]byte {
+	m := map[byte][][]byte{}
+	add := func(n []byte) {
+		if len(n) > 0 {
+			t := c.codec().NalType(n)
+			m[t] = append(m[t], n)
+		}
+	}
+	if c.codec() == esgen.H264 {
+		add(esgen.RealH264SPS)
+		add(esgen.RealH264PPS)
+	} else {
+		add(esgen.RealH265VPS)
+		add(esgen.RealH265SPS)
+		add(esgen.RealH265PPS)
+	}
+	for _, h := range c.LegitPS {
+		b, _ := hex.DecodeString(h)
+		add(b)
+	}
+	return m
+}
+
+func isLegit(m map[byte][][]byte, typ byte, n []byte) bool {
+	for _, l := range m[typ] {
+		if bytes.Equal(l, n) {
+			return true
+		}
+	}
+	return false
+}
+
+// annexB splits a byte stream at start codes (ITU-T H.264 Annex B: 00 00 01, a
+// preceding zero byte belongs to the start code) and returns the units with the
+// offset of their first byte.
+type nalAt struct {
+	off int
+	b   []byte
+}
+
+func annexB(es []byte) []nalAt {
+	var out []nalAt
+	start := -1
+	for i := 0; i+3 <= len(es); i++ {
+		if es[i] == 0 && es[i+1] == 0 && es[i+2] == 1 {
+			if start >= 0 {
+				end := i
+				for end > start && es[end-1] == 0 {
+					end--
+				}
+				out = append(out, nalAt{start, es[start:end]})
+			}
+			start = i + 3
+			i += 2
+		}
+	}
+	if start >= 0 && start < len(es) {
+		out = append(out, nalAt{start, es[start:]})
+	}
+	return out
+}
+
+// flvSequenceHeader returns the record of the first video tag that is a
+// sequence header (FLV video tag header: frame type / codec id, packet type 0,
+// 24-bit composition time; then the decoder configuration record).
+func flvSequenceHeader(got []media.Pack) (codecID byte, record []byte, ok bool) {
+	for _, g := range got {
+		t, isTag := g.(*flv.Tag)
+		if !isTag || t.TagType != flv.TagTypeVideo || len(t.Data) < 5 || t.Data[1] != 0 {
+			continue
+		}
+		return t.Data[0] & 0x0f, t.Data[5:], true
+	}
+	return 0, nil, false
+}
+
+// avcCSets reads the parameter sets out of an AVCDecoderConfigurationRecord
+// (ISO/IEC 14496-15 §5.2.4.1: version, profile, compatibility, level,
+// 6 bits reserved + lengthSizeMinusOne, 3 bits reserved + numOfSPS, then per SPS
+// a 16-bit length and the unit, numOfPPS, per PPS a 16-bit length and the unit).
+func avcCSets(r []byte) (sets [][]byte, err error) {
+	if len(r) < 6 {
+		return nil, fmt.Errorf("record of %d bytes", len(r))
+	}
+	o := 5
+	for round := 0; round < 2; round++ {
+		if o >= len(r) {
+			return nil, fmt.Errorf("record ends before the parameter-set count")
+		}
+		n := int(r[o])
+		if round == 0 {
+			n &= 0x1f
+		}
+		o++
+		for i := 0; i < n; i++ {
+			if o+2 > len(r) {
+				return nil, fmt.Errorf("record ends inside a length field")
+			}
+			l := int(r[o])<<8 | int(r[o+1])
+			o += 2
+			if o+l > len(r) {
+				return nil, fmt.Errorf("parameter set of %d bytes announced, %d left", l, len(r)-o)
+			}
+			sets = append(sets, r[o:o+l])
+			o += l
+		}
+	}
+	return sets, nil
+}
+
+// checkSequenceHeader judges an FLV video sequence header against the legitimate sets.
+func checkSequenceHeader(c *caseSpec, who string, got []media.Pack, lg map[byte][][]byte) string {
+	_, rec, ok := flvSequenceHeader(got)
+	if !ok {
+		return "" // whether a joiner gets one at all is C02's / C08's business
+	}
+	if c.codec() == esgen.H264 {
+		sets, err := avcCSets(rec)
+		if err != nil {
+			return fmt.Sprintf("%s: the FLV video sequence header does not parse as an AVCDecoderConfigurationRecord: %v (%s)", who, err, evid.Hex(rec))
+		}
+		seen := map[byte]bool{}
+		for _, n := range sets {
+			if len(n) == 0 {
+				return who + ": the FLV video sequence header carries an empty parameter set"
+			}
+			typ := n[0] & 0x1f
+			seen[typ] = true
+			if !isLegit(lg, typ, n) {
+				return fmt.Sprintf("%s: the FLV video sequence header carries the parameter set %s (type %d), which is none of the sets the stream legitimately carries", who, evid.Hex(n), typ)
+			}
+		}
+		if !seen[esgen.H264SPS] || !seen[esgen.H264PPS] {
+			return who + ": the FLV video sequence header lacks an SPS or a PPS"
+		}
+		return ""
+	}
+	// HEVCDecoderConfigurationRecord (ISO/IEC 14496-15 §8.3.3.1): each unit is stored
+	// as nalUnitLength(16) + NAL unit inside its array; every type needs a legitimate unit
+	for _, typ := range []byte{esgen.H265VPS, esgen.H265SPS, esgen.H265PPS} {
+		found := false
+		for _, l := range lg[typ] {
+			if bytes.Contains(rec, append([]byte{byte(len(l) >> 8), byte(len(l))}, l...)) {
+				found = true
+			}
+		}
+		if !found {
+			return fmt.Sprintf("%s: the FLV HEVC sequence header holds no legitimate parameter set of type %d (%s)", who, typ, evid.Hex(rec))
+		}
+	}
+	return ""
+}
+
+// parameterSetIdentity: after the hostile input the converted output must carry
+// parameter sets the stream legitimately carries, never a unit of a hostile
+// packet: (1) in every served HLS segment that holds a probe key frame, the
+// nearest SPS and PPS in front of that key frame (the TS muxer writes the
+// stored sets before every IDR); (2) the sequence header of the FLV client that
+// watched from the start; (3) the sequence header a late FLV joiner is handed
+// after the hostile input.
+func parameterSetIdentity(c *caseSpec, r *rig, probe []probeAU, hasFLV, hasHLS bool, bound time.Duration) string {
+	lg := legit(c)
+	if hasFLV {
+		if m := checkSequenceHeader(c, "FLV client from the start", r.flvRec.Got(), lg); m != "" {
+			return m
+		}
+		late := mediah.NewRec(r.name + "-late-flv")
+		cid := r.s.StartConsume(late, media.FLVPacket, "c07-late")
+		mediah.WaitFor(bound/10, func() bool { _, _, ok := flvSequenceHeader(late.Got()); return ok })
+		m := checkSequenceHeader(c, "late FLV joiner", late.Got(), lg)
+		r.s.StopConsume(cid)
+		if m != "" {
+			return m
+		}
+	}
+	if hasHLS {
+		h := hlsOf(r.s)
+		judged := 0
+		for seq := 1; seq <= 64 && h != nil; seq++ {
+			rd, _, err := h.Segment(seq)
+			if err != nil || rd == nil {
+				continue
+			}
+			b, err := io.ReadAll(rd)
+			if err != nil {
+				continue
+			}
+			pids := map[uint16]bool{}
+			for o := 0; o+188 <= len(b); o += 188 {
+				pids[uint16(b[o+1]&0x1f)<<8|uint16(b[o+2])] = true
+			}
+			for pid := range pids {
+				es := tsPayload(b, pid)
+				var nals []nalAt
+				for _, au := range probe {
+					at := bytes.Index(es, au.vtag)
+					if at < 0 {
+						continue
+					}
+					if nals == nil {
+						nals = annexB(es)
+					}
+					var sps, pps []byte
+					for _, n := range nals {
+						if n.off > at {
+							break
+						}
+						if len(n.b) == 0 {
+							continue
+						}
+						switch n.b[0] & 0x1f {
+						case esgen.H264SPS:
+							sps = n.b
+						case esgen.H264PPS:
+							pps = n.b
+						}
+					}
+					judged++
+					if sps == nil || pps == nil {
+						return fmt.Sprintf("HLS segment %d: no SPS / PPS in front of a probe key frame", seq)
+					}
+					if !isLegit(lg, esgen.H264SPS, sps) {
+						return fmt.Sprintf("HLS segment %d: the SPS in front of a probe key frame is %s, none of the sets the stream legitimately carries", seq, evid.Hex(sps))
+					}
+					if !isLegit(lg, esgen.H264PPS, pps) {
+						return fmt.Sprintf("HLS segment %d: the PPS in front of a probe key frame is %s, none of the sets the stream legitimately carries", seq, evid.Hex(pps))
+					}
+				}
+			}
+		}
+		_ = judged
+	}
+	return ""
+}
+
 // judge runs the case with and without the hostile packets, raises a violation
 // for any broken part of the oracle, and returns the injected run's result.
 func judge(t evid.TB, name string, c *caseSpec) *result {
@@ -849,7 +1104,7 @@ func describe(r *result) string {
 	case r.Hang != "":
 		return r.Hang
 	}
-	return strings.TrimSpace(strings.Join([]string{r.RTPMiss, r.FLVMiss, r.HLSMiss, r.TwinMiss}, " "))
+	return strings.TrimSpace(strings.Join([]string{r.RTPMiss, r.FLVMiss, r.HLSMiss, r.PSWrong, r.TwinMiss}, " "))
 }
 
 func replayOrSkip(t *testing.T) []byte {
